@@ -94,6 +94,9 @@ def run_case(c):
         state.fit(torch.tensor([R.index_to_row(k % 4, n) if k % 2 == 0 else [0, 0] for k in range(N)], dtype=torch.double), epochs=1, pos_batch_size=B, lr=0.1, **kw0)
     data = torch.tensor([R.index_to_row(k % 4, n) if k % 2 == 0 else [0, 0] for k in range(N)], dtype=torch.double)   # rotated rows: outcome 00
     bases = np.array([["Z", "Z"] if (k % 2 == 0 or c.get("all_z")) else ["X", "Y"] for k in range(N)]).reshape(N, n)    # all_z: every row measured in the reference basis
+    if c.get("aborted_first"):
+        # an earlier run on the same state was aborted by an exception raised in a user callback (caught by the caller)
+        gen.abort_a_fit(state, data, bases if t != "positive" else None, hook=c["aborted_first"], pos_batch_size=B)
     trace = []
     counter = [0]
     inject = c.get("inject")
@@ -272,7 +275,10 @@ def sampled(draw, tier):
          "cb_form": draw(st.sampled_from(["list", "list", "tuple", "nested_shared", "sequence_api"])), "fits": draw(st.sampled_from([1, 1, 1, 2, 3])),
          # other features used in the same run: a learning-rate scheduler; the library's own evaluator + convergence monitor (tolerance 0:
          # never converges, never requests a stop) somewhere in the callback list
-         "sched": draw(st.booleans()), "lib_cbs": draw(st.sampled_from([None, None, "first", "last", "middle"])), "all_z": draw(st.integers(0, 3)) == 0}
+         "sched": draw(st.booleans()), "lib_cbs": draw(st.sampled_from([None, None, "first", "last", "middle"])), "all_z": draw(st.integers(0, 3)) == 0,
+         "aborted_first": draw(st.sampled_from([None, None, None, "on_train_start", "on_epoch_start", "on_batch_end", "on_epoch_end"]))}
+    if draw(st.integers(0, 19)) == 0:
+        c.update(N=draw(st.integers(1, 3)), E=c["se"] + draw(st.integers(33, 70)), fits=1)      # a long run (time axis: more than 32 / 64 epochs)
     if draw(st.integers(0, 29)) == 0:
         c.update(N=draw(st.integers(1025, 1300)), B=draw(st.sampled_from([400, 500, 1000])), E=c["se"] + draw(st.integers(1, 2)))     # a large data set
     mode = draw(st.sampled_from(["none", "preset", "inject", "inject", "inject"]))
@@ -297,6 +303,7 @@ def box(tier):
         out.append(dict(base, hooks_return=True, nbs=B + 2))
         out.append(dict(base, nbs=max(1, B - 1)))
         out.append(dict(base, sched=True))
+        out.append(dict(base, aborted_first=["on_train_start", "on_epoch_start", "on_batch_end", "on_epoch_end"][(N + B + se + E) % 4]))
         out.append(dict(base, preset=True))
         for j in range(nev):
             out.append(dict(base, stop_at=j, sched=bool(j % 2), lib_cbs=[None, "first", "last"][j % 3]))
